@@ -67,6 +67,11 @@ func noopResult(fn *ssa.Function, args []value) value {
 				return args[j+off]
 			}
 		}
+		if it, ok := t.Underlying().(*types.Interface); ok && it.NumMethods() > 0 {
+			if v, ok := noopImpl(fn, t, it); ok {
+				return v
+			}
+		}
 		return zero(t)
 	}
 	switch res.Len() {
@@ -245,4 +250,42 @@ func snapshot(v value) value {
 		return out
 	}
 	return v
+}
+
+// noopImpl finds a "noop*" struct type implementing interface type t in the packages of a
+// no-op library (otel) so that stubbed constructors return usable, inert objects.
+func noopImpl(fn *ssa.Function, t types.Type, it *types.Interface) (value, bool) {
+	var pkgs []*types.Package
+	if p := fnPkg(fn); p != nil {
+		pkgs = append(pkgs, p.Pkg)
+		pkgs = append(pkgs, p.Pkg.Imports()...)
+	}
+	if n, ok := t.(*types.Named); ok && n.Obj().Pkg() != nil {
+		pkgs = append(pkgs, n.Obj().Pkg())
+	}
+	for _, p := range pkgs {
+		sc := p.Scope()
+		for _, name := range sc.Names() {
+			if !strings.HasPrefix(strings.ToLower(name), "noop") {
+				continue
+			}
+			tn, ok := sc.Lookup(name).(*types.TypeName)
+			if !ok {
+				continue
+			}
+			T := tn.Type()
+			if _, ok := T.Underlying().(*types.Struct); !ok {
+				continue
+			}
+			if types.Implements(T, it) {
+				return iface{t: T, v: zero(T)}, true
+			}
+			if types.Implements(types.NewPointer(T), it) {
+				p := new(value)
+				*p = zero(T)
+				return iface{t: types.NewPointer(T), v: p}, true
+			}
+		}
+	}
+	return nil, false
 }
